@@ -6,8 +6,12 @@ Quantifiers: every operator, every `int` (unbounded), `bool`, `str`, `bytes` ope
 tree over them (any depth), both folders (`ext = false`: mypy/constant_fold.py, `ext = true`:
 mypyc/irbuild/constant_fold.py).  Floats are opaque (`Res.float`).
 
-* `fold_sound`        binary operators: a folded result is CPython's result (value and type)
-* `fold_exact`        binary operators: the folder returns the value `v` ⇔ CPython evaluates to `v`
+* `fold_sound`        binary operators: a folded result is CPython's result (value and type) — unconditional
+* `fold_complete` / `fold_exact`   below the size guard (`belowGuard`, decidable, read from the source by the
+                      translator) the folder returns the value `v` ⇔ CPython evaluates to `v`
+* `fold_declines_above_guard`      above it the folder returns nothing
+* `fold_guarded_int_bound` / `fold_guarded_seq_bound`   values built by guarded operators stay within the bound
+* `guard_config_complete`          a declared bound guards every size-increasing operator (regenerated constants)
 * `fold_float_iff`    the folder returns a float ⇔ the operator is `/` and CPython does not raise
 * `fold_unary_exact_status` / `not_fold_unary_exact` / `fold_unary_partial`   the full unary statement holds
                       iff the folder under check does not return the `bool` operand for `+` (F25; generated constant)
@@ -25,34 +29,21 @@ def IsFormat (op : Op) (a : Val) : Prop :=
 def InDomain (ext : Bool) (a b : Val) : Prop :=
   ext = false → a.isBytes = false ∧ b.isBytes = false
 
-/-- a sequence repetition has a count that fits `ssize_t` (otherwise the real folder itself raises
-    `OverflowError`, finding F24, and so does CPython) -/
-def RepeatInRange (op : Op) (a b : Val) : Prop :=
-  ∀ n, repeatCount op a b = some n → inSsize n = true
-
-instance (op : Op) (a b : Val) : Decidable (RepeatInRange op a b) := by
-  unfold RepeatInRange
-  cases h : repeatCount op a b with
-  | none => exact isTrue (by intro n hn; cases hn)
-  | some k =>
-    exact if hk : inSsize k = true then isTrue (by intro n hn; injection hn with hn; subst hn; exact hk)
-      else isFalse (fun hall => hk (hall k rfl))
-
 /-! ## the property theorems -/
 
-/-- **fold_sound**: whatever either folder returns for a binary operator is what CPython computes
-    (same value, same type; `float` for true division).  No hypothesis. -/
-theorem fold_sound (ext : Bool) (op : Op) (a b : Val) (r : Res) (hr : RepeatInRange op a b) :
+/-- **fold_sound** (exactness, unconditional): whatever either folder returns for a binary operator is what
+    CPython computes (same value, same type; `float` for true division) — with or without the size guards,
+    for operands of any size. -/
+theorem fold_sound (ext : Bool) (op : Op) (a b : Val) (r : Res) :
     foldBin ext op a b = some r → pyBin op a b = .ok r := by
   intro h
   unfold foldBin at h
   split at h
   · -- mypyc's bytes branch
     cases op <;> cases a <;> cases b <;> simp [Val.asInt] at h <;>
-      simp [RepeatInRange, repeatCount, Val.asInt] at hr <;>
       first
-        | (subst h; simp [pyBin, Val.asInt, seqMul, hr])
-        | (simp [pyBin, Val.asInt, h])
+        | (simp [pyBin, Val.asInt]; exact foldRepeat_sound _ _ _ _ _ h)
+        | (obtain ⟨_, h⟩ := h; subst h; simp [pyBin, Val.asInt])
   · unfold foldBinOp at h
     cases ha : a.asInt with
     | some x =>
@@ -64,19 +55,19 @@ theorem fold_sound (ext : Bool) (op : Op) (a b : Val) (r : Res) (hr : RepeatInRa
       | none =>
         simp only [ha, hb] at h
         cases op <;> cases a <;> cases b <;> simp [Val.asInt] at ha hb h <;>
-          simp [RepeatInRange, repeatCount, Val.asInt] at hr <;>
-          (subst h; simp [pyBin, Val.asInt, seqMul, hr])
+          (simp [pyBin, Val.asInt]; exact foldRepeat_sound _ _ _ _ _ h)
     | none =>
       simp only [ha] at h
       cases op <;> cases a <;> cases b <;> simp [Val.asInt] at ha h <;>
-        simp [RepeatInRange, repeatCount, Val.asInt] at hr <;>
         first
-          | (subst h; simp [pyBin, Val.asInt, seqMul, hr])
-          | (simp [pyBin, Val.asInt, h])
+          | (simp [pyBin, Val.asInt]; exact foldRepeat_sound _ _ _ _ _ h)
+          | (obtain ⟨_, h⟩ := h; subst h; simp [pyBin, Val.asInt])
 
-/-- completeness on modelled values: if CPython evaluates `a op b` to an int/bool/str/bytes value, the
-    folder (given operands of its domain) returns exactly that value -/
-theorem fold_complete (ext : Bool) (op : Op) (a b : Val) (v : Val) (hd : InDomain ext a b) :
+/-- **fold_complete** (below the guard): if no size test of the folder fires (`belowGuard`, a decidable
+    predicate on the operands) and CPython evaluates `a op b` to an int/bool/str/bytes value, the folder
+    (given operands of its domain) returns exactly that value. -/
+theorem fold_complete (ext : Bool) (op : Op) (a b : Val) (v : Val) (hd : InDomain ext a b)
+    (hg : belowGuard ext op a b = true) :
     pyBin op a b = .ok (.val v) → foldBin ext op a b = some (.val v) := by
   intro h
   cases ext with
@@ -89,13 +80,18 @@ theorem fold_complete (ext : Bool) (op : Op) (a b : Val) (v : Val) (hd : InDomai
       cases hb : b.asInt with
       | some y =>
         simp only [pyBin, ha, hb] at h
-        exact foldBinInt_complete op _ x y v h
+        simp only [belowGuard, ha, hb] at hg
+        exact foldBinInt_complete op _ x y v hg h
       | none =>
         cases op <;> cases a <;> cases b <;> simp [Val.asInt, Val.isBytes] at ha hb hd' <;>
-          simp [pyBin, Val.asInt, seqMul] at h ⊢ <;> first | exact h | exact ite_ok h
+          simp [pyBin, Val.asInt] at h <;> simp [belowGuard, Val.asInt] at hg <;>
+          exact foldRepeat_complete _ _ _ _ _ hg h
     | none =>
       cases op <;> cases a <;> cases b <;> simp [Val.asInt, Val.isBytes] at ha hd' <;>
-        simp [pyBin, Val.asInt, seqMul] at h ⊢ <;> first | exact h | exact ite_ok h
+        simp [pyBin, Val.asInt] at h <;> simp [belowGuard, Val.asInt] at hg <;>
+        first
+          | exact foldRepeat_complete _ _ _ _ _ hg h
+          | (simp [hg]; exact h)
   | true =>
     unfold foldBin
     cases ha : a.asInt with
@@ -106,22 +102,128 @@ theorem fold_complete (ext : Bool) (op : Op) (a b : Val) (v : Val) (hd : InDomai
         have h2 : b.isBytes = false := by cases b <;> simp [Val.asInt] at hb <;> rfl
         simp only [h1, h2, Bool.or_self, Bool.and_false]
         simp only [pyBin, ha, hb] at h
+        simp only [belowGuard, ha, hb] at hg
         simp only [foldBinOp, ha, hb]
-        exact foldBinInt_complete op _ x y v h
+        exact foldBinInt_complete op _ x y v hg h
       | none =>
         cases op <;> cases a <;> cases b <;> simp [Val.asInt] at ha hb <;>
-          simp [pyBin, Val.asInt, Val.isBytes, foldBinOp, seqMul] at h ⊢ <;> first | exact h | exact ite_ok h
+          simp [pyBin, Val.asInt] at h <;> simp [belowGuard, Val.asInt] at hg <;>
+          simp [Val.isBytes, foldBinOp, Val.asInt] <;>
+          exact foldRepeat_complete _ _ _ _ _ hg h
     | none =>
       cases op <;> cases a <;> cases b <;> simp [Val.asInt] at ha <;>
-        simp [pyBin, Val.asInt, Val.isBytes, foldBinOp, seqMul] at h ⊢ <;> first | exact h | exact ite_ok h
+        simp [pyBin, Val.asInt] at h <;> simp [belowGuard, Val.asInt] at hg <;>
+        simp [Val.isBytes, foldBinOp, Val.asInt] <;>
+        first
+          | exact foldRepeat_complete _ _ _ _ _ hg h
+          | (simp [hg]; exact h)
 
-/-- **fold_exact**: for every operator and all operands of the folder's domain, the folder returns the
-    int/bool/str/bytes value `v` if and only if CPython evaluates `a op b` without raising and the value
-    is `v`.  (`%` on a `str`/`bytes` left operand — formatting — is outside the model of CPython.) -/
+/-- **fold_declines_above_guard**: the guard is applied exactly — when a size test fires, the folder
+    returns nothing (before evaluating the operation). -/
+theorem fold_declines_above_guard (ext : Bool) (op : Op) (a b : Val) (hg : belowGuard ext op a b = false) :
+    foldBin ext op a b = none := by
+  unfold foldBin
+  cases ha : a.asInt with
+  | some x =>
+    cases hb : b.asInt with
+    | some y =>
+      have h1 : a.isBytes = false := by cases a <;> simp [Val.asInt] at ha <;> rfl
+      have h2 : b.isBytes = false := by cases b <;> simp [Val.asInt] at hb <;> rfl
+      simp only [belowGuard, ha, hb] at hg
+      simp only [h1, h2, Bool.or_self, Bool.and_false, foldBinOp, ha, hb]
+      exact foldBinInt_guard op _ x y hg
+    | none =>
+      cases ext <;> cases op <;> cases a <;> cases b <;> simp [Val.asInt] at ha hb <;>
+        simp [belowGuard, Val.asInt] at hg <;>
+        simp [Val.isBytes, foldBinOp, Val.asInt] <;>
+        exact foldRepeat_guard _ _ _ _ hg
+  | none =>
+    cases ext <;> cases op <;> cases a <;> cases b <;> simp [Val.asInt] at ha <;>
+      simp [belowGuard, Val.asInt] at hg <;>
+      simp [Val.isBytes, foldBinOp, Val.asInt] <;>
+      first
+        | exact foldRepeat_guard _ _ _ _ hg
+        | simp [hg]
+
+/-- **fold_exact**: for every operator and all operands of the folder's domain below the guard, the folder
+    returns the int/bool/str/bytes value `v` if and only if CPython evaluates `a op b` without raising and
+    the value is `v`.  (`%` on a `str`/`bytes` left operand — formatting — is outside the model of CPython.)
+    The direction ⇒ is `fold_sound` and needs none of the hypotheses. -/
 theorem fold_exact (ext : Bool) (op : Op) (a b : Val) (v : Val)
-    (hd : InDomain ext a b) (_hf : ¬ IsFormat op a) (hr : RepeatInRange op a b) :
+    (hd : InDomain ext a b) (_hf : ¬ IsFormat op a) (hg : belowGuard ext op a b = true) :
     foldBin ext op a b = some (.val v) ↔ pyBin op a b = .ok (.val v) :=
-  ⟨fold_sound ext op a b (.val v) hr, fold_complete ext op a b v hd⟩
+  ⟨fold_sound ext op a b (.val v), fold_complete ext op a b v hd hg⟩
+
+/-- **fold_guarded_int_bound**: a value produced by a guarded integer operator (`*`, `<<`, `**`) has at most
+    `MAX_FOLDED_INT_BITS` bits (at least 1 for `x ** 0`). -/
+theorem fold_guarded_int_bound (op : Op) (bb : Option (Bool × Bool)) (l r v : Int)
+    (hop : (op = .mul ∧ Cfg.guardIntMul = true) ∨ (op = .lshift ∧ Cfg.guardIntShl = true) ∨
+           (op = .pow ∧ Cfg.guardIntPow = true))
+    (h : foldBinInt op bb l r = some (.val (.int v))) : bitLength v ≤ max 1 Cfg.maxFoldedIntBits := by
+  rcases hop with ⟨rfl, hf⟩ | ⟨rfl, hf⟩ | ⟨rfl, hf⟩ <;> simp only [foldBinInt] at h
+  · split at h
+    · rename_i hg
+      injection h with h; injection h with h; injection h with h; subst h
+      simp [intGuardOk, hf] at hg
+      have := bitLength_mul l r
+      omega
+    · cases h
+  · split at h
+    · rename_i hr
+      split at h
+      · rename_i hg
+        injection h with h; injection h with h; injection h with h; subst h
+        simp [intGuardOk, hf] at hg
+        have := bitLength_shl l r.toNat
+        omega
+      · cases h
+    · cases h
+  · split at h
+    · rename_i hr
+      split at h
+      · rename_i hg
+        injection h with h; injection h with h; injection h with h; subst h
+        simp [intGuardOk, hf] at hg
+        have h1 := bitLength_pow l r.toNat
+        have h2 : ((bitLength l * r.toNat : Nat) : Int) = (bitLength l : Int) * r := by
+          rw [Int.natCast_mul, Int.toNat_of_nonneg hr]
+        omega
+      · cases h
+    · cases h
+
+/-- **fold_guarded_seq_bound**: a `str` / `bytes` produced by a guarded `+` or `*` has at most
+    `MAX_FOLDED_STR_LENGTH` items. -/
+theorem fold_guarded_seq_bound (mk : List Nat → Val) (s t : List Nat) (n : Int) (out : List Nat) :
+    (catGuardOk true s.length t.length = true → (s ++ t).length ≤ Cfg.maxFoldedStrLength) ∧
+    (foldRepeat true mk s n = some (.val (mk out)) → (∀ x y, mk x = mk y → x = y) →
+      out.length ≤ Cfg.maxFoldedStrLength) := by
+  constructor
+  · intro h; simp [catGuardOk] at h; simpa using h
+  · intro h hinj
+    unfold foldRepeat at h
+    split at h
+    · rename_i hc
+      injection h with h; injection h with h
+      have := hinj _ _ h; subst this
+      simp only [Bool.and_eq_true, seqGuardOk, Bool.not_true, Bool.false_or, decide_eq_true_eq] at hc
+      rw [pyRepeat_length]
+      have h1 := hc.1
+      by_cases hn : 0 ≤ n
+      · have : ((n.toNat * s.length : Nat) : Int) = (s.length : Int) * n := by
+          rw [Int.natCast_mul, Int.toNat_of_nonneg hn, Int.mul_comm]
+        omega
+      · have : n.toNat = 0 := by omega
+        simp [this]
+    · cases h
+
+/-- **guard_config_complete** (obligation over the regenerated constants): a tree that declares a bound
+    guards every size-increasing operator with it — `*`, `<<`, `**` on ints; `+`, `*` (both operand orders)
+    on `str`, and on `bytes` in mypyc's folder. -/
+theorem guard_config_complete :
+    (Cfg.maxFoldedIntBits > 0 → Cfg.guardIntMul = true ∧ Cfg.guardIntShl = true ∧ Cfg.guardIntPow = true) ∧
+    (Cfg.maxFoldedStrLength > 0 → Cfg.guardStrAdd = true ∧ Cfg.guardStrMulR = true ∧ Cfg.guardStrMulL = true ∧
+      Cfg.guardBytesAdd = true ∧ Cfg.guardBytesMulR = true ∧ Cfg.guardBytesMulL = true) := by
+  decide
 
 /-- a float result is produced exactly for true division of ints by a non-zero int -/
 theorem fold_float_iff (ext : Bool) (op : Op) (a b : Val) :
@@ -131,7 +233,8 @@ theorem fold_float_iff (ext : Bool) (op : Op) (a b : Val) :
     have hop : op = .truediv := by
       unfold foldBin at h
       split at h
-      · cases op <;> cases a <;> cases b <;> simp [Val.asInt] at h
+      · cases op <;> cases a <;> cases b <;> simp [Val.asInt] at h <;>
+          exact absurd h (foldRepeat_ne_float _ _ _ _)
       · unfold foldBinOp at h
         cases ha : a.asInt with
         | some x =>
@@ -143,14 +246,14 @@ theorem fold_float_iff (ext : Bool) (op : Op) (a b : Val) :
               | some p => cases p; simp [hbb] at h)
           | none =>
             simp only [ha, hb] at h
-            cases op <;> cases a <;> cases b <;> simp [Val.asInt] at ha hb h
+            cases op <;> cases a <;> cases b <;> simp [Val.asInt] at ha hb h <;>
+              exact absurd h (foldRepeat_ne_float _ _ _ _)
         | none =>
           simp only [ha] at h
-          cases op <;> cases a <;> cases b <;> simp [Val.asInt] at ha h
+          cases op <;> cases a <;> cases b <;> simp [Val.asInt] at ha h <;>
+            exact absurd h (foldRepeat_ne_float _ _ _ _)
     subst hop
-    refine ⟨fold_sound ext .truediv a b .float ?_ h, rfl⟩
-    intro n hn
-    cases a <;> cases b <;> simp [repeatCount] at hn
+    exact ⟨fold_sound ext .truediv a b .float h, rfl⟩
   · rintro ⟨h, rfl⟩
     cases ha : a.asInt with
     | some x =>
@@ -227,14 +330,12 @@ theorem fold_unary_partial (ext : Bool) (op : UOp) (v : Val) (r : Res) (hx : ¬ 
 
 /-! ## expression trees -/
 
-/-- no unary `+` is applied to a sub-expression that folds to a `bool` (F23), and no sequence is
-    repeated by a folded count outside `ssize_t` (F24) -/
+/-- no unary `+` is applied to a sub-expression that folds to a `bool` (F25) -/
 def PlusBoolFree (ext : Bool) : Expr → Prop
   | .lit _ => True
   | .boolName _ => True
   | .ref _ _ => True
-  | .bin op l r => PlusBoolFree ext l ∧ PlusBoolFree ext r ∧
-      ∀ a b, foldExpr ext l = some (.val a) → foldExpr ext r = some (.val b) → RepeatInRange op a b
+  | .bin _ l r => PlusBoolFree ext l ∧ PlusBoolFree ext r
   | .un op e => PlusBoolFree ext e ∧ ∀ a, foldExpr ext e = some (.val a) → ¬ PlusOnBool op a
 
 theorem foldUn_sound_partial (ext : Bool) (op : UOp) (v : Val) (r : Res) (hx : ¬ PlusOnBool op v) :
@@ -281,9 +382,9 @@ theorem foldExpr_sound_partial (ext : Bool) (e : Expr) : ∀ (r : Res), PlusBool
           | val b =>
             simp only [hl, hr] at h
             have e1 := ihl (.val a) hp.1 hl
-            have e2 := ihr (.val b) hp.2.1 hr
+            have e2 := ihr (.val b) hp.2 hr
             simp only [pyEval, e1, e2]
-            exact fold_sound ext op a b res (hp.2.2 a b hl hr) h
+            exact fold_sound ext op a b res h
   | un op e ih =>
     intro res hp h
     simp only [foldExpr] at h
@@ -339,8 +440,33 @@ theorem py_rshift_spec (a : Int) (n : Nat) : shr a n * 2 ^ n ≤ a ∧ a < (shr 
 example : InDomain false (.int (-7)) (.int 2) ∧ ¬ IsFormat .floordiv (.int (-7)) := by
   refine ⟨fun _ => ⟨rfl, rfl⟩, ?_⟩
   rintro ⟨h, _⟩; cases h
-example : RepeatInRange .mul (.str [97]) (.int 3) ∧ ¬ RepeatInRange .mul (.int (2 ^ 64)) (.str [97]) := by decide
-example : pyBin .mul (.int (-(2 ^ 64))) (.str [97]) = .raises .overflowError := by decide
+example : pyBin .mul (.int (-(2 ^ 64))) (.str [97]) = .raises .overflowError ∧
+    foldBin false .mul (.int (-(2 ^ 64))) (.str [97]) = none := by decide
+/-- both sides of each guard (for a tree that declares the bound 65536; vacuous otherwise):
+    `1 << 65535` and `True << 65535` are folded, `1 << 65536` is not; `3 ** 32768` is below the guard,
+    `3 ** 32769` above; `2**32767 * 2**32767` below, `2**32768 * 2**32767` above;
+    `"ab" * 32768` / `"a" * 65536` below, `"ab" * 32769` / `65537 * "a"` above; `bytes` likewise in mypyc -/
+example : Cfg.maxFoldedIntBits = 65536 → Cfg.guardIntShl = true → Cfg.guardIntPow = true → Cfg.guardIntMul = true →
+    belowGuard false .lshift (.int 1) (.int 65535) = true ∧ belowGuard false .lshift (.bool true) (.int 65535) = true ∧
+    belowGuard false .lshift (.int 1) (.int 65536) = false ∧
+    (foldBin false .lshift (.int 1) (.int 65535)).isSome = true ∧ foldBin false .lshift (.int 1) (.int 65536) = none ∧
+    belowGuard false .pow (.int 3) (.int 32768) = true ∧ belowGuard false .pow (.int 3) (.int 32769) = false ∧
+    foldBin false .pow (.int 3) (.int 32769) = none := by
+  decide
+set_option exponentiation.threshold 70000 in
+example : Cfg.maxFoldedIntBits = 65536 → Cfg.guardIntMul = true →
+    belowGuard false .mul (.int (2 ^ 32767)) (.int (2 ^ 32767)) = true ∧
+    belowGuard false .mul (.int (2 ^ 32768)) (.int (-(2 ^ 32767))) = false ∧
+    foldBin false .mul (.int (2 ^ 32768)) (.int (-(2 ^ 32767))) = none := by
+  decide +kernel
+example : Cfg.maxFoldedStrLength = 65536 → Cfg.guardStrMulR = true → Cfg.guardStrMulL = true →
+    Cfg.guardStrAdd = true → Cfg.guardBytesMulR = true →
+    belowGuard false .mul (.str [97, 98]) (.int 32768) = true ∧ belowGuard false .mul (.str [97, 98]) (.int 32769) = false ∧
+    belowGuard false .mul (.str [97]) (.int 65536) = true ∧ belowGuard false .mul (.int 65537) (.str [97]) = false ∧
+    foldBin false .mul (.int 65537) (.str [97]) = none ∧ (foldBin false .mul (.str [97, 98]) (.int 32768)).isSome = true ∧
+    belowGuard true .mul (.bytes [1]) (.int 65537) = false ∧ belowGuard false .mul (.bytes [1]) (.int 65537) = true ∧
+    foldBin true .mul (.bytes [1]) (.int 65537) = none := by
+  decide
 example : foldBin false .floordiv (.int (-7)) (.int 2) = some (.val (.int (-4))) := by decide
 example : foldBin false .mod (.int 7) (.int (-2)) = some (.val (.int (-1))) := by decide
 example : foldBin false .floordiv (.int 1) (.int 0) = none ∧
@@ -353,9 +479,8 @@ example : foldBin true .mul (.bytes [1, 2]) (.int 2) = some (.val (.bytes [1, 2,
 example : foldBin false .mul (.int (-3)) (.str [97]) = some (.val (.str [])) := by decide
 example : ¬ PlusOnBool .neg (.bool true) := by decide
 example : PlusBoolFree false (.bin .add (.lit (.int 1)) (.un .neg (.boolName true))) := by
-  refine ⟨trivial, ⟨trivial, ?_⟩, ?_⟩
-  · intro a _ h; exact absurd h.1 (by decide)
-  · intro a b _ _ n hn; simp [repeatCount] at hn
+  refine ⟨trivial, trivial, ?_⟩
+  intro a _ h; exact absurd h.1 (by decide)
 example : foldExpr false (.bin .add (.lit (.int 1)) (.un .neg (.boolName true))) = some (.val (.int 0)) := by
   decide
 
